@@ -227,6 +227,16 @@ Definition set_request_uri (uri : str) (set_uri_host : bool) : M decomposed :=
     end.
 
 (* Message.get_request_uri() on a request message (no Uri-Path-Abbrev, client side) *)
+(* host.removeprefix("[").removesuffix("]") *)
+Definition strip_brackets (h : str) : str :=
+  let h := match h with c :: r => if c =? 91 then r else h | [] => h end in
+  match rev h with c :: r => if c =? 93 then rev r else h | [] => h end.
+(* try: ipaddress.ip_address(...); escaped_host = host  except ValueError: escaped_host = _quote_for_host(host) (76b5301) *)
+Definition escape_host (host : str) : M str :=
+  match ip_address (strip_brackets host) with
+  | IpBad => quote quote_for_host_chars host
+  | _ => Ok host
+  end.
 Definition compose_netloc (m : request_opts) : M str :=
   match o_uri_host m, o_uri_port m with
   | None, None => Ok (r_hostinfo m)
@@ -235,8 +245,8 @@ Definition compose_netloc (m : request_opts) : M str :=
     let host := match o_uri_host m with Some (c :: h) => Some (c :: h) | _ => host end in       (* uri_host or host *)
     let port := match o_uri_port m with Some p => if p =? 0 then port else Some p | None => port end in
     match host with
-    | None => Raise AttributeError                      (* quote_nonascii(None) *)
-    | Some host => escaped_host <- quote_nonascii host ;; hostportjoin escaped_host port
+    | None => Raise AttributeError                      (* None.removeprefix *)
+    | Some host => escaped_host <- escape_host host ;; hostportjoin escaped_host port
     end
   end.
 Definition compose_query (q : list str) : M str := l <- mapM (quote quote_for_query_chars) q ;; Ok (join [38] l).
@@ -272,12 +282,12 @@ Fixpoint ip_lookup (tbl : list (str * ipres)) (s : str) : ipres :=
 Definition run_decompose tbl uri flag := set_request_uri (ip_lookup tbl) uri flag.
 Definition run_compose tbl (m : request_opts) : M str :=
   r <- undecided_remote (ip_lookup tbl) (r_scheme m) (r_hostinfo m) ;;
-  get_request_uri {| r_scheme := fst r; r_hostinfo := snd r; o_uri_host := o_uri_host m; o_uri_port := o_uri_port m;
+  get_request_uri (ip_lookup tbl) {| r_scheme := fst r; r_hostinfo := snd r; o_uri_host := o_uri_host m; o_uri_port := o_uri_port m;
                      o_uri_path := o_uri_path m; o_uri_query := o_uri_query m; o_proxy_uri := o_proxy_uri m; o_proxy_scheme := o_proxy_scheme m |}.
 (* uri -> options -> uri -> options *)
 Definition run_roundtrip tbl uri : M (decomposed * str * decomposed) :=
   d <- set_request_uri (ip_lookup tbl) uri true ;;
-  u <- get_request_uri (opts_of d) ;;
+  u <- get_request_uri (ip_lookup tbl) (opts_of d) ;;
   d' <- set_request_uri (ip_lookup tbl) u true ;;
   Ok (d, u, d').
 
@@ -287,14 +297,14 @@ Definition run_roundtrip_staged tbl uri : M decomposed * option (M str) * option
   match d with
   | Raise _ => (d, None, None, None)
   | Ok dd =>
-    let u := get_request_uri (opts_of dd) in
+    let u := get_request_uri (ip_lookup tbl) (opts_of dd) in
     match u with
     | Raise _ => (d, Some u, None, None)
     | Ok uu =>
       let d2 := set_request_uri (ip_lookup tbl) uu true in
       match d2 with
       | Raise _ => (d, Some u, Some d2, None)
-      | Ok dd2 => (d, Some u, Some d2, Some (get_request_uri (opts_of dd2)))
+      | Ok dd2 => (d, Some u, Some d2, Some (get_request_uri (ip_lookup tbl) (opts_of dd2)))
       end
     end
   end.
